@@ -10,6 +10,7 @@ THEOREMS = [(M_, "NQ.C15." + n) for n in [
     "struct_roundtrip", "fixed_msg_roundtrip", "dispatch_injective", "host_msg_roundtrip",
     "return_msg_roundtrip", "every_fixed_class_dispatched", "subroutine_msg_roundtrip",
     "array_msg_roundtrip_generic", "array_msg_roundtrip", "unknown_type_rejected", "short_buffer_rejected",
+    "observe_id", "serialize_depends_on_current_values", "roundtrip_after_update", "fixed_roundtrip_after_update",
     "layouts_wf", "tables_wf", "probes_match"]]
 TRANSLATORS = ["msg_layouts", "instr_table"]
 LEVEL_TEXT = ('Lean theorems: (1) struct_roundtrip — for ANY struct layout with disjoint in-size leaf fields '
@@ -20,7 +21,9 @@ LEVEL_TEXT = ('Lean theorems: (1) struct_roundtrip — for ANY struct layout wit
               'bytes to the same class with the same field values, dispatch on the type byte injective; '
               '(3) subroutine_msg_roundtrip (type byte ++ subroutine bytes, with C01); (4) array_msg_roundtrip '
               '— arrays of any length below 2^31 with any pattern of undefined entries (induction), undefined '
-              'stays undefined. Tie: layouts, TYPE bytes, dispatch tables and walking-one encode / '
+              'stays undefined; (5) sequence form roundtrip_after_update / fixed_roundtrip_after_update: after any '
+              'sequence of observations (bytes/len), attribute assignments and in-place edits of the values list the '
+              'bytes describe the current field values (serialize is a function of the current values only). Tie: layouts, TYPE bytes, dispatch tables and walking-one encode / '
               'flipped-bit decode probes are regenerated from the live ctypes descriptors and re-decided by '
               'the kernel (WFLayout, WFTables, probes); differential stream on every message type incl. '
               'malformed input (error classes).')
@@ -48,22 +51,6 @@ ASSUMPTIONS = [
 ]
 
 
-def _batch(driver, reqs, limit=30000):
-    """driver.batch in chunks whose request text stays below the pipe buffer size (a chunk of
-    large array messages would otherwise block both pipes)"""
-    out, chunk, size = [], [], 0
-    for r in reqs:
-        n = len(json.dumps(r, separators=(",", ":")))
-        if chunk and size + n > limit:
-            out += driver.batch(chunk)
-            chunk, size = [], 0
-        chunk.append(r)
-        size += n
-    if chunk:
-        out += driver.batch(chunk)
-    return out
-
-
 def run(ctx):
     from harness import msgs as H
     from harness import codec as HC
@@ -71,7 +58,9 @@ def run(ctx):
     res.rule = ("every fixed message class x boundary values per leaf field (0, 1, max, min, byte patterns) + "
                 "random in-width values; arrays of lengths 0..N with all/none/alternating/random undefined "
                 "patterns; subroutine messages from random real subroutines; SDK-produced host messages; "
-                "malformed: every truncation of valid messages, wrong type bytes, bad OptionalInt tags, "
+                "histories: one object observed (bytes/len) and modified step by step (attribute assignment; "
+                "in-place item assignment/append/pop/insert/del on array values), checked against its current "
+                "field values; malformed: every truncation of valid messages, wrong type bytes, bad OptionalInt tags, "
                 "negative / too large lengths, random bytes. Non-trivial = a message with some non-zero field "
                 "or a non-empty array / malformed input; distinct by the message JSON / byte string")
     rng = ctx.rng
@@ -103,14 +92,14 @@ def run(ctx):
         msgs.append(("host", {"k": "sub", "b": [rng.randrange(256) for _ in range(rng.randrange(30))]},
                      "sub:opaque"))
 
-    ser = _batch(ctx.driver, [{"op": "msg.ser", "m": mj} for _, mj, _ in msgs])
+    ser = ctx.driver.batch([{"op": "msg.ser", "m": mj} for _, mj, _ in msgs])
     valid_bytes = []
     des_reqs = []
     for (direction, mj, tag), ms in zip(msgs, ser):
         rb, exc = H.real_serialize(mj)
         valid_bytes.append(rb)
         des_reqs.append({"op": "msg.deshost" if direction == "host" else "msg.desret", "b": rb or []})
-    des = _batch(ctx.driver, des_reqs)
+    des = ctx.driver.batch(des_reqs)
     for (direction, mj, tag), ms, rb, md in zip(msgs, ser, valid_bytes, des):
         res.evaluations += 1
         res.count(tag)
@@ -154,7 +143,7 @@ def run(ctx):
         conn.flush()
         q.measure()
     sdk_raw = [list(r) for r in conn.storage]
-    sd = _batch(ctx.driver, [{"op": "msg.deshost", "b": r} for r in sdk_raw])
+    sd = ctx.driver.batch([{"op": "msg.deshost", "b": r} for r in sdk_raw])
     for r, md in zip(sdk_raw, sd):
         res.evaluations += 1
         res.count("sdk-produced")
@@ -167,6 +156,45 @@ def run(ctx):
             if back != r:
                 res.failures.append({"what": "bytes(deserialize(raw)) != raw for an SDK-produced message",
                                      "input": {"raw": r, "back": back}, "kf": None})
+
+    # ---------------------------------------------------------------- histories (multi-step)
+    # one message object: serialise / len, modify fields (attribute assignment; in-place list edits
+    # for the array message), serialise again -- the bytes must describe the CURRENT field values
+    hists = [("ret", {"k": "arr", "a": 7, "v": [None, None, None]},
+              [{"u": "obs"}, {"u": "item", "i": 0, "v": 1}, {"u": "item", "i": 2, "v": 0},
+               {"u": "append", "v": None}], "hist:C15_1-witness")]
+    pool = [(d, mj, tag) for (d, mj, tag) in msgs if len(json.dumps(mj)) < 600]
+    n_hist = 6000 if thorough else 1200
+    for k in range(n_hist):
+        d, mj, tag = rng.choice(pool) if k % 3 else rng.choice([x for x in pool if x[1]["k"] == "arr"])
+        hists.append((d, mj, H.gen_history(mj, rng, rng.randrange(1, 9)), "hist:" + tag.split(":")[0]))
+    hm = ctx.driver.batch([{"op": "msg.hist", "m": mj, "us": us} for _, mj, us, _ in hists])
+    for (direction, mj, us, tag), mh in zip(hists, hm):
+        res.evaluations += 1
+        res.count(tag)
+        res.nontrivial.add(("hist", json.dumps([mj, us], sort_keys=True)))
+        obj = H.make_msg(mj)
+        bad = None
+        for k, u in enumerate(us):
+            H.apply_real(obj, mj, u, k)
+            if u["u"] == "obs" and bad is None:
+                bad = H.own_bytes_ok(direction, obj)
+                if bad is not None:
+                    bad["after_steps"] = k + 1
+        if bad is None:
+            bad = H.own_bytes_ok(direction, obj)
+        cur = H.msg_to_json(obj)
+        rb = list(bytes(obj))
+        if mh.get("m") != cur or mh.get("b") != rb:
+            res.disagreements.append({"stream": "msg.history", "input": {"m": mj, "updates": us},
+                                      "model": {"m": mh.get("m"), "b": (mh.get("b") or [])[:120]},
+                                      "code": {"m": cur, "b": rb[:120]}})
+        if bad is not None:
+            res.failures.append({"what": "after updates, bytes(m) do not deserialise to the current field "
+                                         "values of m (or len(m) != len(bytes(m)))", "kf": None,
+                                 "input": {"dir": direction, "start": mj, "updates": us, "detail": bad}})
+        if tag.endswith("witness") or (len(res.samples) < 7 and res.evaluations % 301 == 0):
+            res.samples.append({"dir": direction, "start": mj, "updates": us, "bytes": rb[:60]})
 
     # ---------------------------------------------------------------- malformed stream
     mal = []  # (direction, bytes, tag)
@@ -202,7 +230,7 @@ def run(ctx):
         if raw and rng.random() < 0.7:
             raw[0] = rng.randrange(5)
         mal.append((rng.choice(["host", "ret"]), raw, "random-bytes"))
-    mo = _batch(ctx.driver, [{"op": "msg.deshost" if d == "host" else "msg.desret", "b": b} for d, b, _ in mal])
+    mo = ctx.driver.batch([{"op": "msg.deshost" if d == "host" else "msg.desret", "b": b} for d, b, _ in mal])
     for (direction, raw, tag), md in zip(mal, mo):
         res.evaluations += 1
         rd = H.real_deserialize(direction, raw)
